@@ -25,7 +25,7 @@ from deeprob.spn.learning.splitting.cols import split_cols_clusters
 from deeprob.spn.learning import em as em_mod
 from deeprob.spn.models.sklearn import SPNClassifier
 
-EXE = os.environ.get('DEEPROB_DRIVER', '/verif/lean/.lake/build/bin/driver')
+EXE = os.environ.get('DEEPROB_DRIVER', __import__('os').path.join(__import__('os').path.dirname(__import__('os').path.dirname(__import__('os').path.dirname(__import__('os').path.abspath(__file__)))), 'lean', '.lake', 'build', 'bin', 'driver'))
 WANT = set(filter(None, os.environ.get('DEMO_SECTIONS', '').split(',')))
 seed = int(sys.argv[1]) if len(sys.argv) > 1 else 1
 rnd = random.Random(seed)
